@@ -4,7 +4,7 @@
    finishes") is refuted in the stated configuration class by the known findings (hang with an ordered
    standalone buffer, LIFO deadlock with early transport disabled) and otherwise decided by exploration. *)
 From Coq Require Import List ZArith Bool.
-From JSL Require Import Base.Res Base.ListX SM.Types SM.Util SM.Handler SM.Step SM.Inv SMP.Offers SM.ExampleDeadlock SM.ExampleHang SM.Middleware SMP.Reflect Props.C05 Gen.Kernels Gen.KernelsEq.
+From JSL Require Import Base.Res Base.ListX SM.Types SM.Util SM.Handler SM.Step SM.Inv SMP.Offers SM.ExampleDeadlock SM.ExampleHang SM.Middleware SMP.Reflect Props.C05 Gen.Kernels Gen.KernelsEq SMP.StepInv SMP.LiftProv SMP.ProvBatch SMP.OffersValid SMP.Clock.
 Import ListNotations.
 
 Theorem C11_ready_only :
@@ -87,3 +87,16 @@ Proof.
   split; [apply gen_job_is_done_eq|apply gen_no_processing_operations_eq].
 Qed.
 Print Assumptions C11_job_predicates_are_the_code's.
+
+(* Over whole runs: every transition offered to the agent passes validation in the very state it is offered in, in every
+   result reachable by any run of the middleware (instances whose machine post-buffers are unordered or of capacity one;
+   SMP/OffersValid.v: the offers of a result are those of get_possible_transitions of its state, and that state satisfies
+   the C01 invariant). What can still go wrong after a valid offer is accepted is the subject of the refutations above. *)
+Theorem C11_every_offer_is_valid_in_every_run_flex :
+  forall (sigma : oracle) (i : inst) (fuel : nat) (x0 : state) (joker0 : Z) (ta : bool) (r : result) (m : mw),
+    inst_nonneg_b i = true -> flex_post_b i = true ->
+    clock_b x0 = true -> wfs_b i x0 = true -> fresh2_b i x0 = true -> nodep_b x0 = true ->
+    reach sigma i fuel x0 joker0 ta r m ->
+    forall tr, In tr (r_offers r) -> is_transition_valid (r_x r) tr = Ok true.
+Proof. intros sigma i fuel x0 joker0 ta r m Hnn Hf. apply flex_offers_valid; auto. Qed.
+Print Assumptions C11_every_offer_is_valid_in_every_run_flex.
